@@ -47,8 +47,9 @@ sx_enum! {
         // borrow-mode: audit a few handles through `&self` paths while the query is in flight
         Peek { h: Sel },
         // mut-mode sneaky site: a nested query macro (kind % 3: ecs_iter!, ecs_iter_destroy!, ecs_find!)
-        // on the unmatched archetype, from inside the closure of the query in flight
-        OtherQuery { kind: u8, n: u32, mask: u32 },
+        // on the unmatched archetype, from inside the closure of the query in flight; pk = k + 1: the
+        // closure of the nested macro panics at its k-th visit (0 = never)
+        OtherQuery { kind: u8, n: u32, mask: u32, pk: u32 },
     }
 }
 
